@@ -242,7 +242,7 @@ def step (st : St) (line : String) : St × String :=
     | .error e => (st, fmtErr e)
   -- façades
   | ["facade", fid, rid, kind, parent, pattern, mws] =>
-    match fid.toNat?, rid.toNat? with
+    match fid.toNat?, rid.toNat? >>= (fun r => (st.routers.get? r).map (fun _ => r)) with
     | some f, some r =>
       let fac : Facade :=
         match parent.toNat? >>= lookup st.facades with
